@@ -30,6 +30,10 @@ def _work(item):
     if _ENG is None:
         _init()
     from . import verify as V
+    import faulthandler
+    # last resort: a worker stuck in native code for 20 min (quick) / 3 h (thorough) kills itself; the pool is then
+    # broken and run_items re-runs the unfinished items one by one
+    faulthandler.dump_traceback_later(10800 if thorough else 1200, exit=True)
     t0 = time.time()
     _PORTFOLIO_SPENT[0] = 0.0
     res = V.verify_one(_ENG, key, ctx, timeout_ms=timeout_ms, alias=alias)
@@ -50,6 +54,7 @@ def _work(item):
             rec["cross_checked"] = cross_check(_ENG, ob, timeout_ms)
         out["obligations"].append(rec)
     out["wall"] = round(time.time() - t0, 3)
+    faulthandler.cancel_dump_traceback_later()
     return out
 
 
@@ -86,7 +91,7 @@ def portfolio(eng, ob, rec, timeout_ms, thorough):
     from . import verify as V
     tries = [rec["backend"] + ":" + rec["status"]]
     reason = rec.get("reason", "") or ""
-    big = max(timeout_ms * 4, 60000)
+    big = max(timeout_ms * 2, 30000)
     status, model = rec["status"], None
     s = None
     if "timeout" in reason or "canceled" in reason or "resource" in reason or "max." in reason:
@@ -100,8 +105,8 @@ def portfolio(eng, ob, rec, timeout_ms, thorough):
     if s is None:
         _, _, _, model, s = V.solve(eng, ob, 1000)
     text = s.to_smt2()
-    other = 60 if thorough else 20
-    cap = 240 if thorough else 60
+    other = 60 if thorough else 15
+    cap = 240 if thorough else 45
     for name, cmd in (("z3-4.8.12", ["/usr/bin/z3", f"-T:{other}", "smt.mbqi=false", "auto_config=false"]),
                       ("cvc5-1.0.3", ["/usr/bin/cvc5", f"--tlimit={other * 1000}", "--full-saturate-quant"])):
         if not os.path.exists(cmd[0]):
